@@ -36,6 +36,8 @@ pub struct IrrDb {
     pub routes4: BTreeMap<String, Vec<String>>,
     pub routes6: BTreeMap<String, Vec<String>>,
     pub errors: BTreeMap<String, String>,
+    /// transient trouble: the same, but only the first time the query is seen (by this server, on any connection)
+    pub errors_once: BTreeMap<String, String>,
     /// answer `C` instead of `D` for an AS without routes
     pub empty_as_c: bool,
     /// make every answer at least this many bytes long without changing what it means: remarks lines in objects,
@@ -73,6 +75,10 @@ impl IrrDb {
             errors: v["errors"]
                 .as_object()
                 .map(|o| o.iter().map(|(k, x)| (k.clone(), x.as_str().unwrap_or("D").to_string())).collect())
+                .unwrap_or_default(),
+            errors_once: v["errors_once"]
+                .as_object()
+                .map(|o| o.iter().map(|(k, x)| (k.clone(), x.as_str().unwrap_or("F").to_string())).collect())
                 .unwrap_or_default(),
             empty_as_c: v["empty_as_c"].as_bool().unwrap_or(false),
             pad: v["pad"].as_u64().unwrap_or(0) as usize,
@@ -296,6 +302,7 @@ pub fn start_irrd(db: IrrDb, mode: &str) -> FakeIrrd {
     }
     let log2 = log.clone();
     let live2 = live.clone();
+    let seen_once: Arc<Mutex<Vec<String>>> = Arc::new(Mutex::new(Vec::new()));
     std::thread::spawn(move || {
         let mut nconn = 0usize;
         for stream in listener.incoming() {
@@ -306,7 +313,7 @@ pub fn start_irrd(db: IrrDb, mode: &str) -> FakeIrrd {
                 drop(stream);
                 continue;
             }
-            let (db, log, n) = (db, log2.clone(), nconn);
+            let (db, log, n, seen_once) = (db, log2.clone(), nconn, seen_once.clone());
             std::thread::spawn(move || {
                 let _ = stream.set_nodelay(true);
                 let mut w = stream.try_clone().expect("clone");
@@ -318,7 +325,24 @@ pub fn start_irrd(db: IrrDb, mode: &str) -> FakeIrrd {
                     if q == "!q" {
                         break;
                     }
-                    if let Some(a) = db.answer(&q) {
+                    let once = db.errors_once.get(&q).cloned().filter(|_| {
+                        let mut s = seen_once.lock().unwrap();
+                        if s.contains(&q) {
+                            false
+                        } else {
+                            s.push(q.clone());
+                            true
+                        }
+                    });
+                    let answer = match once {
+                        Some(kind) => Some(match kind.as_str() {
+                            "E" => "E\n".to_string(),
+                            "D" => "D\n".to_string(),
+                            _ => "F transient failure\n".to_string(),
+                        }),
+                        None => db.answer(&q),
+                    };
+                    if let Some(a) = answer {
                         if w.write_all(a.as_bytes()).is_err() {
                             break;
                         }
@@ -764,7 +788,12 @@ pub fn project_update(cfg: &Elem) -> Value {
                 foreign.push(format!("/configuration/policy-options/{}", ps.name));
                 continue;
             }
-            let name = ps.child("name").map(|n| n.t()).unwrap_or_default();
+            // a name is taken as it is written (quoted names may begin or end with a blank); only white space that
+            // comes from laying the document out on several lines is not part of it
+            let name = ps
+                .child("name")
+                .map(|n| if n.text.contains('\n') { n.t() } else { n.text.clone() })
+                .unwrap_or_default();
             let mut terms = Vec::new();
             let mut reject = false;
             for x in &ps.children {
